@@ -196,7 +196,7 @@ def rule_sgc(A: Analysis, rep):
 def rule_sg6(A: Analysis, rep):
     S = "utils.sigchld.SigchldHelper."
     ar = A.fn(S + "_add_returncode")
-    body = [norm(s) for s in ar.node.body if not (isinstance(s, ast.Expr) and isinstance(s.value, ast.Constant))]
+    body = [norm(s) for s in ar.node.body if not (isinstance(s, ast.Expr) and isinstance(s.value, ast.Constant)) and not isinstance(s, ast.Assert)]
     p, r = ar.params[1], ar.params[2]
     want_a = "self._returncodes.append((%s, %s))" % (p, r)
     writes = [b for b in body if b.startswith("os.write(self._write_pipe,")]
@@ -211,7 +211,7 @@ def rule_sg6(A: Analysis, rep):
     wt = A.fn(S + "wait")
     gw = A.cfg(wt, "plain")
     reads = [c for c in walk_local(wt.node) if isinstance(c, ast.Call) and norm(c.func) == "os.read"]
-    ok = len(reads) == 1 and len(reads[0].args) == 2 and norm(reads[0].args[0]) == "self._read_pipe" and norm(reads[0].args[1]) == "1"
+    ok = len(reads) == 1 and len(reads[0].args) == 2 and A.xtext(reads[0].args[0], wt) == "self._read_pipe" and norm(reads[0].args[1]) == "1"
     rets = [n for n in gw.nodes if n.kind == "stmt" and isinstance(n.ast, ast.Return)]
     if ok:
         rn = gw.node_of(_stmt_of(reads[0]))
@@ -232,7 +232,7 @@ def rule_sg6(A: Analysis, rep):
         rn = gw.node_of(_stmt_of(reads[0]))
         polls = [c for c in walk_local(wt.node) if isinstance(c, ast.Call) and norm(c.func) in ("select.select", "select.poll", "selectors.DefaultSelector")]
         for c in polls:
-            if norm(c.func) == "select.select" and len(c.args) == 4 and "self._read_pipe" in norm(c.args[0]):
+            if norm(c.func) == "select.select" and len(c.args) == 4 and "self._read_pipe" in A.xtext(c.args[0], wt):
                 tv = A.prog.fold(wt.module, c.args[3])
                 bounded = isinstance(tv, (int, float)) and not isinstance(tv, bool) and 0 < tv <= 5
                 gs = A.path_guards(gw, gw.entry, rn, wt)
